@@ -2,6 +2,7 @@
 # usage: seedcheck.sh <patch.diff> [prop ...]   - applies a seeded change to /repo, runs the
 # quick checks (all registered ones by default), reverts. Prints which properties fire.
 set -u
+export VERIF_EVIDENCE_DIR=/tmp/seed_evidence; mkdir -p $VERIF_EVIDENCE_DIR
 P="$1"; shift
 cd /verif
 git -C /repo diff --quiet || { echo "/repo is dirty"; exit 2; }
